@@ -139,6 +139,11 @@ def run_shard(spec):
                 # one query per configuration whose text is longer than any key width a back-end may assume (about 2300 characters)
                 q = "lit-a/" + "/".join("cat-%s%02d" % ("x" * 150, j) for j in range(14))
                 env.count("long_queries")
+            elif rnd.random() < 0.06:
+                # texts a decoder may treat specially (byte-order mark first) and arguments that are long binary values
+                g._numeric_prefix = False
+                q = rnd.choice(["lit-%EF%BB%BFbom", "lit-%EF%BB%BF", "lit-a/cat-~X~/mk-bigbytes-1~E", "one/pair-~X~/mk-bigbytes-2~E-z",
+                                "lit-x/cat-~X~/lit-" + "y" * 150 + "~E"]) + "/" + g.query(0, first=False, max_len=2)
             elif rnd.random() < 0.1:
                 # results of every built-in kind (each is filed by its own state type)
                 g._numeric_prefix = False
@@ -170,6 +175,9 @@ def run_shard(spec):
                     continue
                 try:
                     json.dumps(rk.get("vars"))
+                    from liquer.state_types import encode_state_data
+
+                    encode_state_data(rk.get("value"))      # e.g. a dictionary with tuple keys has no default encoding
                 except Exception:
                     unserialisable = True
                     break
